@@ -10,12 +10,21 @@
 (* devs = {"Dev_SubNoStepLimit"}: as-is, the two sub-matcher loops never compare their step count  *)
 (*                                with step_limit (regex/vm.py _execute_lookahead,                 *)
 (*                                _try_lookbehind_at)                                              *)
+(* devs = {"Var_PollPerRun"}    : a variant that was never the engine's state but is one edit away: *)
+(*                                each run (attempt, sub-matcher activation) paces polling with its *)
+(*                                own step count instead of the counter shared by all runs.         *)
+(*                                PollBound and LateBound fail: runs shorter than the poll interval *)
+(*                                add up to unpolled work (the check requires exactly that).        *)
+(* The embedder's time limit: the poll callback is a monotone function of time - it may say stop   *)
+(* at any poll, and from the deadline dl (a number of steps; chosen from Deadlines, one of them     *)
+(* beyond every run = no deadline) it always does.  LateBound: the search never executes more than  *)
+(* PollInterval steps after the deadline.                                                           *)
 (* TLC checks (small constants): StepBound, StackBound, PollBound, WorkBound and that exhaustion   *)
 (* of a budget leads to a defined outcome.  With the as-is deviation on, SubStepBound fails - the  *)
 (* model-level statement of the finding.                                                           *)
 EXTENDS Naturals, Sequences, FiniteSets, TLC
 
-CONSTANTS StepLimit, StackLimit, PollInterval, N, MaxSub, MaxSubRuns, Devs
+CONSTANTS StepLimit, StackLimit, PollInterval, Deadlines, N, MaxSub, MaxSubRuns, Devs
 
 VARIABLES att,        \* attempt number 0..N of the search
           acts,       \* stack of activations, innermost last: [kind, steps, stack]
@@ -23,8 +32,9 @@ VARIABLES att,        \* attempt number 0..N of the search
           since,      \* steps executed since the last poll callback
           work,       \* [re, la, lb]: total steps per loop kind
           subruns,    \* sub-matcher activations started in this attempt (bounded to keep the model finite)
-          status      \* "run" | "match" | "null" | "overflow" | "timeout"
-vars == <<att, acts, pollc, since, work, subruns, status>>
+          status,     \* "run" | "match" | "null" | "overflow" | "timeout"
+          dl          \* the deadline of this search, in steps: from step dl + 1 on the poll callback always says stop
+vars == <<att, acts, pollc, since, work, subruns, status, dl>>
 
 Act(kind) == [kind |-> kind, steps |-> 0, stack |-> 0]
 Top == acts[Len(acts)]
@@ -32,7 +42,7 @@ SetTop(a) == [acts EXCEPT ![Len(acts)] = a]
 Pop == SubSeq(acts, 1, Len(acts) - 1)
 
 Init == /\ att = 0 /\ acts = <<Act("re")>> /\ pollc = 0 /\ since = 0
-        /\ work = [re |-> 0, la |-> 0, lb |-> 0] /\ subruns = 0 /\ status = "run"
+        /\ work = [re |-> 0, la |-> 0, lb |-> 0] /\ subruns = 0 /\ status = "run" /\ dl \in Deadlines
 
 \* the attempt (or sub-matcher) on top of the activation stack ends without a match
 FailTop ==
@@ -50,12 +60,14 @@ Step ==
   /\ status = "run"
   /\ LET a == Top
          n == a.steps + 1
-         polled == (pollc + 1) % PollInterval = 0
-     IN /\ pollc' = pollc + 1
+         polled == IF "Var_PollPerRun" \in Devs THEN n % PollInterval = 0        \* the step count of this run
+                   ELSE (pollc + 1) % PollInterval = 0                              \* the count shared by all runs of the search
+     IN /\ pollc' = pollc + 1 /\ dl' = dl
         /\ work' = [work EXCEPT ![a.kind] = @ + 1]
         /\ \/ \* the poll callback asks to stop (only at a poll point)
               /\ polled /\ since' = 0 /\ status' = "timeout" /\ UNCHANGED <<att, acts, subruns>>
-           \/ /\ since' = IF polled THEN 0 ELSE since + 1
+           \/ /\ ~(polled /\ pollc + 1 > dl)                     \* a callback after the deadline never says go on
+              /\ since' = IF polled THEN 0 ELSE since + 1
               /\ IF LimitedKind(a.kind) /\ n > StepLimit
                  THEN \* step budget of this activation exhausted: it fails gracefully
                       FailTop
@@ -86,6 +98,7 @@ StepBound    == \A i \in 1..Len(acts) : acts[i].kind = "re" => acts[i].steps <= 
 SubStepBound == \A i \in 1..Len(acts) : acts[i].kind # "re" => acts[i].steps <= StepLimit + 1
 StackBound   == \A i \in 1..Len(acts) : acts[i].stack <= StackLimit + 1
 PollBound    == since < PollInterval                   \* every loop kind counts and polls: never PollInterval steps without a callback
+LateBound    == pollc <= dl + PollInterval             \* at most one poll interval of steps after the deadline, over all runs of the search
 WorkBound    == work.re <= (att + 1) * (StepLimit + 1)
 \* sub-matcher work per attempt: at most MaxSubRuns activations, each within its step budget (needs SubStepBound)
 SubWorkBound == "Dev_SubNoStepLimit" \in Devs \/ work.la + work.lb <= (att + 1) * MaxSubRuns * (StepLimit + 1)
